@@ -13,6 +13,7 @@ from mc import payload as P
 from mc.termcheck import short
 
 PROPERTY = "C16"
+PAYLOAD_SEEDS = {"thorough": [0, 1, 2, 3]}  # the thorough tier repeats the whole enumeration for four payload seeds
 ASSUMPTIONS = [
     "full-rank operators with prescribed singular values separated by >= 0.3 (cond <= ~20)",
     "a dense / structural rule asked for k < min(m, n) may return either all triplets (product = A) or the k requested ones (best rank-k "
